@@ -29,6 +29,15 @@ CONFIG = {
   "level_text": "Machine-checked theorems (Lean 4), generic in the scalar function and hence valid for every operator and element kind: whenever the lifted operator returns a value it has the broadcast shape and every element is the scalar operator applied to the elements that meet there (scalar/matrix, equal shapes, matrix with matching column or row vector), for all shapes and storage forms; incompatible shapes are rejected; acceptance is closed under shape for total scalar functions; integer operators are exact when representable and errors otherwise; comparisons and Boolean algebra stated outright; floats are the IEEE parameter. The model (dispatch over RowDVector/DVector/DMatrix and the eight kernel families) is tied to the code by class-exhaustive differential runs through Interpreter::interpret.",
   "level_note": "Trusted: Lean kernel + propext/Classical.choice/Quot.sound; IEEE float hardware; harness rendering (annotated definitions). Fixed-size storage forms (behind the stdlib feature set, which does not compile) are not covered. A fix: commit added the missing shape checks to the MDMD/RDRD/VDVD arms (C01-D1/D2).",
  },
+ "C03": {
+  "engine": "core",
+  "claimed": True,
+  "rule": "6 matrix shapes (1x4 RowDVector, 4x1 DVector, 1x1, 3x3, 2x4, 4x3 DMatrix) x 10 selector classes (scalar, row/column index vector, 1-element vector, range, 1-element range, :, row/column mask, 1-element mask, matrix mask) in one position and all 100 class pairs in two positions, x {in range, 0, extent+1, far, negative, short mask, long mask}, element kinds rotated over all 16; the indexed variable is re-read afterwards (frame); distinct = distinct case lines",
+  "trusted": ["selector normalisation (Value::as_index: negative literals saturate to 0) is reproduced in the driver"],
+  "assumptions": ["fractional indices are not generated"],
+  "level_text": "Machine-checked theorems (Lean 4) over a model of the access kernels (loops over nalgebra linear and (row, col) indexing with the 1-based `ix - 1` conversion) for all shapes and index lists: two scalar indices read exactly x(i,j) (iff); every slice that returns a value is the |R|x|C| matrix of x(R_a, C_b) for the rows/columns the selectors address (index vectors with repeats, ranges, `:`, masks), in-range selectors are always served, any index that addresses no element (0, beyond the extent) is an error, a mask selects exactly the true positions and must have the extent's length; the same for one-position (column-major linear) indexing. Tied to the code by enumerating every (storage form, selector class, selector class) cell with in-range and boundary out-of-range indices over all element kinds, re-reading the variable afterwards.",
+  "level_note": "Trusted: Lean kernel + propext/Classical.choice/Quot.sound; harness rendering; the support table (which combinations have an arm) is data transcribed from the arm lists and re-enumerated on every run. Combinations without an arm are errors where values exist (known finding C03-D4). A fix: commit added the missing logical-index length checks and the column-major fill of x[mask,:] (C03-D1..D3).",
+ },
  "C07": {
   "engine": "bytecode",
   "rule": "CRC model vs crc32fast on random byte strings; 14 emitted files x (pristine load, byte-exact re-encode, all single-bit flips and all truncations for 3 files (thorough: all), sampled flips/truncations/bursts<=32 bits incl. bursts reaching the trailer); random byte strings; random instruction lists through write_to/from_bytes; distinct = distinct case lines",
